@@ -16,6 +16,7 @@ matching verify_data, are ECDSA's / the PRF's security — `SigUnforgeable`, `Ve
 and are not assumed anywhere: the statements stop at the facts the code checks.)
 -/
 import RtcModel.Lemmas.DtlsAuth
+import RtcModel.Lemmas.Fingerprint
 
 namespace RtcModel.Theorems.C02
 open RtcModel.Generated RtcModel.DtlsRecord RtcModel.DtlsHs
@@ -450,5 +451,84 @@ def cCryptoBad : Crypto := { cCrypto with digest := fun _ => [0xBB] }
 set_option maxRecDepth 8000 in
 example : (after cCryptoBad wLoc true (some [0xAA]) cOps).conn = .failed ∧
     (after cCryptoBad wLoc true (some [0xAA]) cOps).alive = false := by decide
+
+/-! ### fingerprint text -/
+
+section Fingerprint
+open RtcModel.Fingerprint
+
+/-- the normal form of an accepted fingerprint text is exactly what `fingerprint_from_der` prints for
+the bytes the text denotes (upper-case hex pairs joined by ':') -/
+theorem normalize_is_from_der_format (s a : RtcModel.Fingerprint.Bytes) (h : normalize s = some a) : a = format (value s) := by
+  unfold normalize at h
+  dsimp only at h
+  split at h
+  · cases h
+  · rename_i h1
+    split at h
+    · cases h
+    · rename_i h2
+      simp only [Bool.or_eq_true, bne_iff_ne, ne_eq, not_or, Decidable.not_not] at h1
+      simp only [Bool.not_eq_true', Bool.not_eq_false] at h2
+      have hup := strip_all_upHex s (by simpa using h2)
+      have := hexPairs_decodePairs (strip s) h1.2 hup
+      cases h
+      simp [format, value, this]
+
+/-- what `fingerprint_from_der` prints is accepted and is its own normal form -/
+theorem format_is_normal (d : RtcModel.Fingerprint.Bytes) (hd : d ≠ []) : normalize (format d) = some (format d) := by
+  have hs : strip (format d) = hexPairs d := strip_joinPairs _ (hexPairs_all_upHex d)
+  have hlen : ∀ x : RtcModel.Fingerprint.Bytes, (hexPairs x).length = 2 * x.length := by
+    intro x
+    induction x with
+    | nil => rfl
+    | cons b r ih => simp only [hexPairs, List.length_cons, ih]; omega
+  have hne : (hexPairs d).isEmpty = false := by
+    cases d with
+    | nil => exact absurd rfl hd
+    | cons b r => rfl
+  have hall : (hexPairs d).all isHex = true := by
+    have := hexPairs_all_upHex d
+    simp only [List.all_eq_true] at this ⊢
+    intro x hx
+    exact upHex_isHex x (this x hx)
+  unfold normalize
+  simp only [hs, hne, hlen d, hall]
+  simp [format]
+
+/-- the bytes denoted by the printed form are the digest -/
+theorem value_format (d : RtcModel.Fingerprint.Bytes) : value (format d) = d := by
+  simp [value, format, strip_joinPairs _ (hexPairs_all_upHex d), decodePairs_hexPairs]
+
+/-- **fingerprint_normalise**: two accepted fingerprint texts have the same normal form iff they
+denote the same bytes (case, colons and their placement do not matter; nothing else is tolerated). -/
+theorem fingerprint_normalise (s t a b : RtcModel.Fingerprint.Bytes) (hs : normalize s = some a) (ht : normalize t = some b) :
+    a = b ↔ value s = value t := by
+  rw [normalize_is_from_der_format s a hs, normalize_is_from_der_format t b ht]
+  constructor
+  · intro h
+    have := congrArg value h
+    simpa [value_format] using this
+  · intro h
+    rw [h]
+
+/-- hence the comparison `handle_certificate` makes (normalised SDP text == printed digest of the
+presented certificate) holds iff the SDP text denotes exactly the digest bytes -/
+theorem fingerprint_compare_iff_digest (s a d : RtcModel.Fingerprint.Bytes) (hs : normalize s = some a) :
+    a = format d ↔ value s = d := by
+  rw [normalize_is_from_der_format s a hs]
+  constructor
+  · intro h
+    have := congrArg value h
+    simpa [value_format] using this
+  · intro h
+    rw [h]
+
+-- "aa:Bb:0c" and "aabb0c" both normalise to "AA:BB:0C"; odd length, non-hex and empty are rejected
+example : normalize [97, 97, 58, 66, 98, 58, 48, 99] = some [65, 65, 58, 66, 66, 58, 48, 67] := by decide
+example : normalize [97, 97, 98, 98, 48, 99] = some [65, 65, 58, 66, 66, 58, 48, 67] := by decide
+example : normalize [97, 97, 58, 98] = none ∧ normalize [122, 122] = none ∧ normalize [58, 58] = none := by decide
+
+end Fingerprint
 
 end RtcModel.Theorems.C02
